@@ -3,6 +3,7 @@ import FrappyProofs.Lemmas.ActivateSnap
 import FrappyProofs.Lemmas.ActivateLoss
 import FrappyProofs.Lemmas.ActivateQuiet
 import FrappyProofs.Lemmas.ActivateExplicit
+import FrappyProofs.Lemmas.ActivateTables
 import FrappyModel.Generated.C08
 /-
 C08 — property theorems (nothing but property theorems and their non-vacuity examples).
@@ -69,6 +70,43 @@ theorem others_unaffected (cfg : Cfg) (σ σ' : State) (a : Act) : OthersUnaffec
   · rename_i k hk
     obtain ⟨_, _, _, _, f5, f6, _⟩ := stepU_frame cfg σ σ' k a.arg hs
     simp [listens, f5, f6]
+
+/-- "The scopes of other connections are unaffected", on the tables themselves: an action changes no row of
+`_active_connections` / `_subscriptions` but the one of the connection whose request thread acts.  In particular no action
+of an updater (`announceUpdate` → `broadcast_event`: listener selection and sends) changes any table entry, under any key.
+Strictly stronger than `others_unaffected`: see the example `listens_same_tables_differ` below. -/
+theorem tables_others_unaffected (cfg : Cfg) (σ σ' : State) (a : Act) : TablesFrame cfg σ σ' a :=
+  tablesFrame cfg σ σ' a
+
+/-- The same for a whole broadcast, as equations: the tables after any action of an updater are the tables before. -/
+theorem broadcast_leaves_tables (cfg : Cfg) (σ σ' : State) (k : Nat) (arg : Conn)
+    (h : step cfg σ ⟨.u k, arg⟩ = some σ') : σ'.active = σ.active ∧ σ'.subs = σ.subs := by
+  obtain ⟨_, _, _, _, f5, f6, _⟩ := stepU_frame cfg σ σ' k arg h
+  exact ⟨f5, f6⟩
+
+/-- In every reachable state every table entry — a member of `_active_connections`, a member of `_subscriptions[k]` for
+whatever string `k` — stands for an activation of that very connection which is still possibly in force: `k` is the
+specifier of a module / parameter scope the connection asked for and no reply has ended it yet.  (So what a connection
+receives never depends on entries somebody else's request or a broadcast left behind.) -/
+theorem tables_own (cfg : Cfg) (hs : Conn → List Req) (us : Nat → List (Mod × Par × Entry))
+    (cache : Mod → Par → Entry) (σ : State) (h : Reach cfg (init hs us cache) σ) : TablesOwn σ :=
+  tablesOwn_reach cfg hs us cache σ h
+
+/-- `tables_own` without the monitor state: connection `c` is entered under key `k` only if the trace contains a request
+marker `activate s` of `c` itself with `s` the module / parameter scope whose specifier is `k`, and no later reply of `c`
+ends `s`; likewise for `_active_connections` and the whole-node scope. -/
+theorem tables_own_explicit (cfg : Cfg) (hs : Conn → List Req) (us : Nat → List (Mod × Par × Entry))
+    (cache : Mod → Par → Entry) (σ : State) (h : Reach cfg (init hs us cache) σ) :
+    (∀ c, σ.active c = true → ∃ j : Nat, σ.trace[j]? = some (Obs.reqStart c (.activate .all)) ∧
+        ∀ (i : Nat) (o : Obs), j < i → σ.trace[i]? = some o → ¬ endsReply c .all o) ∧
+    (∀ k c, σ.subs k c = true → ∃ s, s ≠ Scope.all ∧ s.key = k ∧
+        ∃ j : Nat, σ.trace[j]? = some (Obs.reqStart c (.activate s)) ∧
+          ∀ (i : Nat) (o : Obs), j < i → σ.trace[i]? = some o → ¬ endsReply c s o) := by
+  obtain ⟨h1, h2⟩ := tables_own cfg hs us cache σ h
+  refine ⟨fun c hc => (mem_liveAfter' σ.trace c .all).1 (h1 c hc), ?_⟩
+  intro k c hk
+  obtain ⟨s, hs1, hs2, hs3⟩ := h2 k c hk
+  exact ⟨s, hs1, hs2, (mem_liveAfter' σ.trace c s).1 hs3⟩
 
 /-- The lock discipline of the repaired code (`_lock` → `updateLock` → `_subscription_lock`) cannot
 deadlock: in no reachable state with an unfinished thread is every thread blocked. -/
@@ -194,6 +232,66 @@ example : ((run exCfgBroken exInit4 ((List.replicate 16 (⟨.h 1, 0⟩ : Act)) +
       [⟨.u 1, 0⟩, ⟨.u 1, 0⟩, ⟨.u 1, 0⟩, ⟨.u 1, 0⟩, ⟨.u 1, 0⟩, ⟨.h 1, 0⟩])).map (fun σ =>
       (σ.trace.drop 3, listens σ 1 mT pTarget, finished σ (.h 1), finished σ (.u 1)))) =
     some ([.reqStart 1 .ident, .reply 1 .ident false, .emit 1 mT pTarget (.val 3), .emitDone 1], false, true, true) := by rfl
+
+/-- two connections: 1 activates `T:target`, 2 activates the whole node, an update of `T:target` goes to both, 2 deactivates,
+the next update goes to 1 only — and between the two the broadcast has left no entry for 2 under `T:target`
+(what the seeded in-place `listeners |= …` does) -/
+def exCfg2 : Cfg := ⟨[mT], fun _ => [pTarget], [1, 2], fun _ => false⟩
+def exInit5 : State :=
+  init (fun c => if c = 1 then [.activate (.par mT pTarget)] else if c = 2 then [.activate .all, .deactivate .all] else [])
+       (fun k => if k = 1 then [(mT, pTarget, .val 1), (mT, pTarget, .val 5)] else []) (fun _ _ => .val 0)
+
+def exActs5a : List Act :=
+  List.replicate 10 ⟨.h 1, 0⟩ ++ List.replicate 10 ⟨.h 2, 0⟩ ++ [⟨.u 1, 0⟩, ⟨.u 1, 0⟩, ⟨.u 1, 1⟩, ⟨.u 1, 2⟩, ⟨.u 1, 0⟩, ⟨.u 1, 0⟩]
+def exActs5b : List Act :=
+  List.replicate 6 ⟨.h 2, 0⟩ ++ [⟨.u 1, 0⟩, ⟨.u 1, 0⟩, ⟨.u 1, 1⟩, ⟨.u 1, 0⟩, ⟨.u 1, 0⟩]
+
+/-- after the first broadcast (both connections were sent the value): the tables hold exactly the two own entries -/
+example : ((run exCfg2 exInit5 exActs5a).map (fun σ =>
+      (σ.subs (pkey mT pTarget) 1, σ.subs (pkey mT pTarget) 2, σ.active 1, σ.active 2,
+       lastDelivered σ.trace 1 mT pTarget, lastDelivered σ.trace 2 mT pTarget))) =
+    some (true, false, false, true, some (.val 1), some (.val 1)) := by rfl
+
+/-- after the global `deactivate` of 2 and the second assignment: 1 holds 5, 2 still holds 1 -/
+example : ((run exCfg2 exInit5 (exActs5a ++ exActs5b)).map (fun σ =>
+      (σ.subs (pkey mT pTarget) 1, σ.subs (pkey mT pTarget) 2, σ.active 2,
+       lastDelivered σ.trace 1 mT pTarget, lastDelivered σ.trace 2 mT pTarget, σ.cache mT pTarget, quietB σ.trace))) =
+    some (true, false, false, some (.val 5), some (.val 1), .val 5, true) := by rfl
+
+/-- `tables_own` is about something: a reachable state with entries in both tables -/
+example : ∃ σ, Reach exCfg2 exInit5 σ ∧ σ.active 2 = true ∧ σ.subs (pkey mT pTarget) 1 = true ∧
+    Scope.all ∈ liveAfter σ.trace 2 ∧ Scope.par mT pTarget ∈ liveAfter σ.trace 1 := by
+  cases h : run exCfg2 exInit5 exActs5a with
+  | none => exact absurd h (by decide)
+  | some σ =>
+    have hr := run_reach exCfg2 exInit5 exInit5 σ exActs5a Reach.init h
+    have h1 : ((run exCfg2 exInit5 exActs5a).map (fun σ => (σ.active 2, σ.subs (pkey mT pTarget) 1))) = some (true, true) := by rfl
+    rw [h] at h1
+    simp only [Option.map_some, Option.some.injEq, Prod.mk.injEq] at h1
+    have hown := tables_own exCfg2 _ _ _ σ hr
+    refine ⟨σ, hr, h1.1, h1.2, hown.1 2 h1.1, ?_⟩
+    obtain ⟨s, hs1, hs2, hs3⟩ := hown.2 _ 1 h1.2
+    have : s = Scope.par mT pTarget := key_inj s (.par mT pTarget) hs1 (by simp) hs2
+    rw [this] at hs3; exact hs3
+
+/-- why the clause is stated on the tables and not only on `listens`: entering the globally active connection 2 under
+`T:target` as well (what the seeded change does during a broadcast) changes nobody's `listens` at that moment, but
+connection 2 then keeps listening after its global `deactivate` -/
+def exPolluted (σ : State) : State := subscribe σ 2 (pkey mT pTarget)
+
+example (σ : State) (h : σ.active 2 = true) :
+    (∀ c m p, listens (exPolluted σ) c m p = listens σ c m p) ∧
+    listens (unregister (exPolluted σ) 2 .all) 2 mT pTarget = true ∧
+    (σ.subs (pkey mT pTarget) 2 = false → σ.subs mT.val 2 = false → listens (unregister σ 2 .all) 2 mT pTarget = false) := by
+  refine ⟨?_, ?_, ?_⟩
+  · intro c m p
+    by_cases hc : c = 2
+    · subst hc; simp [listens, exPolluted, subscribe, h]
+    · simp [listens, exPolluted, subscribe, hc]
+  · simp [listens, exPolluted, subscribe, unregister]
+  · intro h1 h2
+    have h3 : modPart (pkey mT pTarget) = mT.val := modPart_pkey mT pTarget
+    simp [listens, unregister, h1, h2, h3]
 
 /-- the monitors are not trivially true: the pinned tree's log `update 7, inactive, update 5` is rejected … -/
 example : silentMon.accepts
